@@ -29,8 +29,11 @@ RW = ["xyz", "sdf", "pdb"]
 
 
 def correspond(ctx):
+    from . import _fchk
+
     for k in RW:
         K.corr_roundtrip(ctx, ADAPTERS[k], ctx.n(25, 250), generations=2)
+    _fchk.corr_objects(ctx, ctx.n(40, 300), generations=2)
 
 
 def search(ctx):
@@ -41,6 +44,9 @@ def search(ctx):
         K.search_c15(ctx, ad, ctx.n(30, 400) * mult)
     for k in RW:
         K.search_c15(ctx, ADAPTERS[k], ctx.n(30, 400) * mult)
+    from ._fchk import FCHK_FREE
+
+    K.search_c15(ctx, FCHK_FREE, ctx.n(40, 400) * mult)
     K.corpus_cycles(ctx)
 
 
